@@ -313,6 +313,11 @@ def replay_server_trace(pid, path):
     """--replay for violations of kind 'server-trace': re-run the script, re-validate."""
     with open(path) as f:
         rp = json.load(f)
+    if rp.get('kind') == 'l2-trace':
+        rc = replay_l2(pid, rp)
+        if rc:
+            print('VIOLATION property=%s replay=%s' % (pid, path))
+        return rc
     if rp.get('kind') not in ('server-trace', 'api-exception'):
         print('replay file is not a server trace; content:\n' + json.dumps(rp, indent=1)[:3000])
         return 1
@@ -341,6 +346,115 @@ def replay_server_trace(pid, path):
         print('replay: trace rejected; diagnosis:')
         print(json.dumps(d, indent=1)[:6000])
     print('VIOLATION property=%s replay=%s' % (pid, path))
+    return 1
+
+
+# ---- L2: one queue primitive per step (EioQueueFine) -------------------------------------------
+
+L2_INVS = ['TypeOK', 'OneDisconnect', 'ClosedHasDisconnect', 'NoLossNoDup', 'DeliveredInOrder',
+           'CounterSound']
+L2_KINDS = '{"poll", "send", "disc", "postclose"}'
+
+
+def l2_consts(nproc, **kw):
+    c = dict(Proc='{' + ', '.join(str(i) for i in range(1, nproc + 1)) + '}', Kinds=L2_KINDS,
+             MaxMsg=2, Cap=2, SerialPolls='TRUE', Timeouts='TRUE')
+    c.update(kw)
+    return c
+
+
+def l2_models(ck, th, liveness=False):
+    """TLC on EioQueueFine: every interleaving of a few tasks at the grain of one queue
+    primitive per step.  liveness: also the join / poll termination properties (C15)."""
+    jobs = [dict(name='L2 (one queue primitive per step): %d tasks of kinds poll / send / '
+                      'disconnect(sid) / POST CLOSE, poll timeouts, one GET at a time'
+                      % (5 if th else 4),
+                 spec='Spec', consts=l2_consts(5 if th else 4), invariants=L2_INVS),
+            dict(name='L2: concurrent GETs on one session (3 tasks polling among %d)'
+                      % (5 if th else 4), spec='Spec',
+                 consts=l2_consts(5 if th else 4, SerialPolls='FALSE'), invariants=L2_INVS)]
+    if liveness:
+        jobs.append(dict(name='L2 liveness under fair scheduling: every GET returns (timeouts on)',
+                         spec='FairSpec', consts=l2_consts(3, MaxMsg=1),
+                         properties=['PollReturns', 'PollAnswers']))
+        jobs.append(dict(name='L2 liveness: disconnect(sid) returns - expected to fail (finding F6)',
+                         spec='FairSpec', consts=l2_consts(3, MaxMsg=1, Kinds='{"poll", "send", "disc"}'),
+                         properties=['DisconnectReturns'], f6=True))
+
+    def one(j):
+        cfg = tlc.cfg_text(spec=j['spec'], constants=j['consts'], invariants=j.get('invariants', ()),
+                           properties=j.get('properties', ()))
+        return j, tlc.run('EioQueueFine', cfg, workers=max(2, NCPU // 2), timeout=1500,
+                          constants=j['consts'])
+    with cf.ThreadPoolExecutor(max_workers=2) as ex:
+        for j, r in ex.map(one, jobs):
+            if r.error:
+                raise MachineryError('TLC job %s failed: %s\n%s' % (j['name'], r.error, r.out[-2000:]))
+            ck.add_tlc(r, j['name'])
+            if j.get('f6'):
+                opn, _ = load_known_findings(ck.pid)
+                f6 = [e for e in opn if e['id'] == 'F6']
+                txt = '\n'.join(r.trace)
+                # the counterexample must be the listed finding: the joiner waits in d_join while
+                # everything left in the queue can no longer be consumed (polls are refused)
+                if r.violated and f6 and '"d_join"' in txt:
+                    ck.known_finding('F6', f6[0]['what'])
+                    ck.cov.setdefault('known_finding_counterexamples', []).append(
+                        {'model': j['name'], 'length': len(r.trace)})
+                elif r.violated:
+                    ck.violation('EioQueueFine: %s violated (%s)' % (r.violated, j['name']),
+                                 {'job': j['name'], 'counterexample': txt[-6000:]})
+                continue
+            if r.violated:
+                ck.violation('EioQueueFine: %s violated (%s)' % (r.violated, j['name']),
+                             {'job': j['name'], 'constants': j['consts'],
+                              'counterexample': '\n'.join(r.trace)[-8000:] or r.out[-3000:]})
+            elif r.distinct < 500:
+                raise MachineryError('vacuity: %s has only %d states' % (j['name'], r.distinct))
+
+
+def l2_conform(ck, seed, n):
+    """Pre-emptive executions of the real threaded server (one polling session, several requests
+    and application calls in flight), logged primitive by primitive and validated by TLC."""
+    from ..harness import l2
+    traces, facts = [], []
+    for i, sc in enumerate(l2.scripts(seed + 31, n)):
+        t, f = l2.run(sc, seed=seed * 100003 + i)
+        traces.append(t)
+        facts.append(f)
+        ck.distinct(['l2', sc, f['schedule_seed']])
+    consts = l2_consts(12, MaxMsg=99, Cap=16, SerialPolls='FALSE', Timeouts='FALSE')
+    v = tracecheck.validate('EioQueueFineTrace', traces, constants=consts,
+                            invariants=[i for i in L2_INVS if i != 'DeliveredInOrder'])
+    ck.cov['states'] += v.states
+    ck.cov['transitions'] += v.generated
+    ck.add_conformance('threaded server, one polling session, groups of concurrent GET / send() / '
+                       'disconnect(sid) / POST CLOSE under pre-emptive schedules: every queue '
+                       'primitive that took effect (put, get call, get, task_done, join return, task '
+                       'return) is one step of EioQueueFine; final queue, counter, flags, table, '
+                       'events, deliveries must match', len(traces), len(v.accepted),
+                       primitive_records=sum(len(t['log']) for t in traces))
+    for i in v.rejected[:3]:
+        ck.violation('primitive-level trace rejected by EioQueueFine (schedule seed %s)'
+                     % facts[i]['schedule_seed'],
+                     {'script': facts[i]['script'], 'schedule_seed': facts[i]['schedule_seed'],
+                      'trace': traces[i], 'kind': 'l2-trace'})
+    for i, inv, txt in v.inv_violations[:3]:
+        ck.violation('EioQueueFine invariant %s violated on a real execution' % inv,
+                     {'script': facts[i]['script'], 'schedule_seed': facts[i]['schedule_seed'],
+                      'tlc': txt, 'kind': 'l2-trace'})
+
+
+def replay_l2(pid, rp):
+    from ..harness import l2
+    t, f = l2.run(rp['script'], seed=rp['schedule_seed'])
+    consts = l2_consts(12, MaxMsg=99, Cap=16, SerialPolls='FALSE', Timeouts='FALSE')
+    v = tracecheck.validate('EioQueueFineTrace', [t], constants=consts,
+                            invariants=[i for i in L2_INVS if i != 'DeliveredInOrder'])
+    if v.accepted and not v.inv_violations:
+        print('replay: primitive-level trace accepted by EioQueueFine')
+        return 0
+    print(json.dumps(t)[:4000])
     return 1
 
 
